@@ -2,6 +2,7 @@
 CONSTANTS
   Ns = {6}
   Vals = {1, 2}
+  Ops <- AllOps
   Recycle = TRUE
   Deep = TRUE
 INVARIANTS TypeOK WellFormed
